@@ -444,6 +444,11 @@ def falsified(text, flags, rec=None):
     # D33 (instance dependent): the result applies arithmetic to a non-integer where the source did not
     if rec is not None and rec.get("result_undefined") and "math" in on:
         keys.add("Hyp_integers_only")
+    # D44 (instance dependent): chain differences / chain weights are computed on every value of the chain's domain; the
+    # result of the failing run has such chain terms and grounds with 'operation undefined'/'tuple ignored' where the source does not
+    if rec is not None and rec.get("result_undefined") and ("minmax_chains" in on or "sum_chains" in on) and \
+            re.search(r"__chain_\d+_\d+__m(ax|in)_", rec.get("result") or ""):
+        keys.add("Hyp_integers_only_chain")
     # D32: recursion through an aggregate: the head predicate occurs inside a body aggregate of its own rule
     if "math" in on:
         for stm in rules:
